@@ -17,7 +17,7 @@ def tolist(v):
 
 def do_case(ctx, inp):
     p, d, pts = inp["p"], inp["d"], inp["pts"]
-    g = real_poly(p, dtype=inp.get("pdtype"))
+    g = real_poly(p, ids=inp.get("ids"), dtype=inp.get("pdtype"))
     arr = np.array(pts, dtype=np.dtype(inp.get("xdtype", "int64")))
     lay = inp.get("layout")
     if lay == "fortran":
@@ -128,6 +128,14 @@ def run(ctx):
             k = ctx.rng.randint(1, 4)
             pts = [[gen_point(ctx.rng, p) for _ in range(k)] for _ in range(ctx.rng.randint(1, 3))]
         inp = {"p": p, "d": d, "pts": pts}
+        if ctx.rng.random() < 0.12:
+            # integer column labels in the caller's order, the support column named by the caller: labels are labels
+            nc_ = len(p["bnds"]); start = ctx.rng.choice([0, 0, 1])
+            ids = list(range(start, start + nc_))
+            if ctx.rng.random() < 0.5: ctx.rng.shuffle(ids)
+            inp["ids"] = ids
+            if ctx.rng.random() < 0.7: p["first"] = "named"
+            ctx.tags["integer-column-labels"] += 1
         r = ctx.rng.random()
         if r < 0.35:
             # narrow integer dtypes for the polyhedron and / or the points: every entry fits, row sums need not
